@@ -85,10 +85,7 @@ def run_shard(shard: Dict[str, Any]) -> Acc:
         acc.hist("max_reps", st["max_reps"])
         nontrivial = common.program_nontrivial_c01(prog)
         acc.case(bp.phash(prog), nontrivial, sample=prog if i < 40 else None)
-        try:
-            check_program(prog, acc)
-        except RecursionError:
-            acc.count("recursion_inconclusive")
+        common.guarded(acc, check_program, prog, acc, case={"program": prog})
     return acc
 
 
